@@ -370,6 +370,8 @@ type lbPick struct {
 
 var errLbPlain = errors.New("sim_lb: scripted plain picker error")
 
+const lbStormLimit = 200
+
 func (p *lbPicker) choose(f func(lbSnap) bool) *lbSC {
 	var c []*lbSC
 	for _, sn := range p.scs {
@@ -412,6 +414,25 @@ func (p *lbPicker) Pick(info balancer.PickInfo) (balancer.PickResult, error) {
 	kind := "lazy"
 	if len(p.spec) > 0 {
 		kind = p.spec[p.rng.Intn(len(p.spec))]
+	}
+	if c := pk.call; c != nil {
+		// Circuit breaker of the harness: gRPC retries an attempt whose stream
+		// could not be created transparently, without backoff and without
+		// limit; while a subchannel is still READY although its transport can
+		// no longer write (the peer closed, the reader has not noticed yet) this
+		// becomes a loop of tens of thousands of picks in one virtual instant.
+		// After lbStormLimit picks of one RPC in one instant the picker ends
+		// the RPC with UNAVAILABLE.
+		if pk.t.Equal(c.stormT) {
+			c.stormN++
+		} else {
+			c.stormT, c.stormN = pk.t, 1
+		}
+		if c.stormN > lbStormLimit {
+			kind = "st:14"
+			x.storm = true
+			e.Probe("retry_storm_cut")
+		}
 	}
 	pk.kind = kind
 	var s *lbSC
